@@ -183,11 +183,11 @@ let () =
           let stripes = List.init (max 0 (mx - start)) (fun i -> nat_of_int (start + i)) in
           let m = if cache <= 1 then Mono else Threaded (nat_of_int cache) in
           let r = sync_loop_w hashf (n_of_int bs) (nat_of_int nlev) o (n_of_int now) fs faults wf m lagf stripes
-                    (if stop < 0 then None else Some (nat_of_int stop)) O [] O c p O O O in
+                    (if stop < 0 then None else Some (nat_of_int stop)) O [] [] c p O O O in
           let ro = r.w_run in
           let b = Buffer.create 4096 in
           Buffer.add_string b (Printf.sprintf "ok %d %d %d %d %d %d %d " (int_of_nat ro.ro_nerr) (int_of_nat ro.ro_nsilent) (int_of_nat ro.ro_nio)
-                                 (if ro.ro_bailed then 1 else 0) (int_of_nat r.w_nfail) (List.length r.w_lost) (int_of_nat r.w_iters));
+                                 (if ro.ro_bailed then 1 else 0) (List.length r.w_fpos) (List.length r.w_lost) (int_of_nat r.w_iters));
           print_content b (save_normalise ro.ro_content);
           print_parity b ro.ro_parity;
           print_endline (Buffer.contents b)
